@@ -237,6 +237,10 @@ impl Property for C05 {
             Stream::new("operator-matrix-unary-x-binary", 3 * nb * 3 * np, true, move |i| format!("un:{}:{}:{}:{}", i % 3, (i / 3) % nb, (i / 3 / nb) % 3, i / 9 / nb)),
             Stream::new("postfix-operands", 5 * (nb + 3) * 2, true, move |i| format!("post:{}:{}:{}", i % 5, (i / 5) % (nb + 3), i / 5 / (nb + 3))),
             Stream::new("role-tables", 4 * 2 + 5 * 4 + 30 + 16 + 8 + 2 + 2, true, |i| format!("table:{i}")),
+            Stream::new("long-left-nested-operator-chains", AGREEING_OPS.len() as u64 * 39 * np, true, move |i| {
+                let nops = AGREEING_OPS.len() as u64;
+                format!("chain:{}:{}:{}", i % nops, 2 + (i / nops) % 39, i / nops / 39)
+            }),
             Stream::new("empty-statement-bodies", (EMPTY_BODY_CASES.len() * EMPTY_BODY_WRAPS.len()) as u64, true, |i| format!("empty:{i}")),
             Stream::new("random-expression-trees", tier.pick(20_000, 1_000_000), false, move |i| format!("rexpr:{}", mix(&[seed, 0xC05, 1, i]))),
             Stream::new("random-programs-roles", tier.pick(15_000, 800_000), false, move |i| format!("roles:{}", mix(&[seed, 0xC05, 2, i]))),
@@ -311,6 +315,19 @@ impl Property for C05 {
                 let prog = restrict_ops(role_table_case(&mut g, i));
                 obs.class("role-table");
                 check_roles(&prog, i, "role-table", obs);
+            }
+            "chain" => {
+                // a1 op a2 op … op an nests to the left, whatever its length, in every position
+                let op = AGREEING_OPS[num(1) as usize % AGREEING_OPS.len()];
+                let n = num(2).clamp(2, 64) as usize;
+                let pos = POSITIONS[num(3) as usize % POSITIONS.len()];
+                let mut e = leaf(&mut next, "a1");
+                for k in 2..=n {
+                    let r = leaf(&mut next, &format!("a{k}"));
+                    e = bin(&mut next, op, e, r);
+                }
+                let prog = place(&mut next, pos, e);
+                run_cell(format!("chain/{}/len{}/{pos}", op.text(), if n < 8 { "<8" } else if n < 16 { "8..15" } else { ">=16" }), prog, 3, obs);
             }
             "empty" => empty_body_case(num(1) as usize, obs),
             "rexpr" => {
